@@ -16,6 +16,7 @@ import (
 	"pgregory.net/rapid"
 
 	"github.com/safing/portbase/api"
+	"github.com/safing/portbase/config"
 	"github.com/safing/portbase/database/record"
 	"github.com/safing/portbase/dataroot"
 	"github.com/safing/portbase/log"
@@ -191,6 +192,40 @@ func waitWorkers(want int) int {
 
 type fatalf interface{ Fatalf(string, ...any) }
 
+var devModeNow bool
+
+// setDevMode switches the development mode of the running api module (core/devMode): a handler panic is answered
+// with the details instead of a bare 500 then; everything else C06 demands stays as it is.
+func setDevMode(t fatalf, on bool) {
+	if on == devModeNow {
+		return
+	}
+	base := steadyWorkers()
+	if err := config.SetConfigOption(config.CfgDevModeKey, on); err != nil {
+		t.Fatalf("harness: cannot set %s: %v", config.CfgDevModeKey, err)
+	}
+	devModeNow = on
+	// the change event runs hooks as workers of the api module (API keys are re-read): let them finish
+	time.Sleep(2 * time.Millisecond)
+	if got := waitWorkers(base); got != base {
+		t.Fatalf("harness: api module has %d workers after the configuration change, %d before", got, base)
+	}
+	_ = steadyWorkers()
+}
+
+// steadyWorkers returns the api module's worker counter once it has not changed for 20 ms.
+func steadyWorkers() int {
+	last, since := apiWorkers(), time.Now()
+	deadline := time.Now().Add(10 * time.Second)
+	for time.Since(since) < 20*time.Millisecond && time.Now().Before(deadline) {
+		time.Sleep(500 * time.Microsecond)
+		if got := apiWorkers(); got != last {
+			last, since = got, time.Now()
+		}
+	}
+	return last
+}
+
 // runBatch fires the requests concurrently and checks the C06 clauses for API handlers.
 func runBatch(t fatalf, reqs []reqSpec) {
 	base := waitWorkers(apiWorkers()) // whatever is idle now
@@ -270,36 +305,42 @@ func requireAPI(t *testing.T) {
 func TestExhaustiveAPIHandlerPanics(t *testing.T) {
 	requireAPI(t)
 	n := int64(0)
-	for _, ep := range endpoints {
-		for _, pk := range modsim.PanicKinds {
-			for _, method := range []string{"GET", "POST"} {
-				for pos := 0; pos < 3; pos++ {
-					p := reqSpec{EP: ep, Method: method, Panic: pk, HoldUS: 500}
-					var batch []reqSpec
-					switch pos {
-					case 0:
-						batch = []reqSpec{p}
-					case 1:
-						batch = []reqSpec{p, {EP: "action", Method: "GET", HoldUS: 3000}, {EP: "raw", Method: "POST", HoldUS: 3000}}
-					default:
-						batch = []reqSpec{{EP: "struct", Method: "GET", HoldUS: 3000}, {EP: "handlerfunc", Method: "POST", HoldUS: 3000}, p}
-					}
-					runBatch(t, batch)
-					n++
-					if stats.WantSample("api_table") {
-						stats.Sample("api_table", batch)
+	defer setDevMode(t, false)
+	for _, dev := range []bool{false, true} {
+		setDevMode(t, dev)
+		for _, ep := range endpoints {
+			for _, pk := range modsim.PanicKinds {
+				for _, method := range []string{"GET", "POST"} {
+					for pos := 0; pos < 3; pos++ {
+						p := reqSpec{EP: ep, Method: method, Panic: pk, HoldUS: 500}
+						var batch []reqSpec
+						switch pos {
+						case 0:
+							batch = []reqSpec{p}
+						case 1:
+							batch = []reqSpec{p, {EP: "action", Method: "GET", HoldUS: 3000}, {EP: "raw", Method: "POST", HoldUS: 3000}}
+						default:
+							batch = []reqSpec{{EP: "struct", Method: "GET", HoldUS: 3000}, {EP: "handlerfunc", Method: "POST", HoldUS: 3000}, p}
+						}
+						runBatch(t, batch)
+						n++
+						if stats.WantSample("api_table") {
+							stats.Sample("api_table", batch)
+						}
 					}
 				}
 			}
 		}
 	}
 	stats.CaseN(n, n, "exhaustive_api_endpoint_x_value_x_method_x_position")
-	stats.Exhaustive("API endpoint type (7) x panic value (10: nil, error, string, runtime index, nil deref, struct, custom error type, context.Canceled, wrapped context.Canceled, typed nil error pointer) x method class (GET, POST) x position (alone, first, last)")
+	stats.Exhaustive("development mode (off, on) x API endpoint type (7) x panic value (10: nil, error, string, runtime index, nil deref, struct, custom error type, context.Canceled, wrapped context.Canceled, typed nil error pointer) x method class (GET, POST) x position (alone, first, last)")
 }
 
 func TestPropAPIHandlerPanics(t *testing.T) {
 	requireAPI(t)
 	rapid.Check(t, func(t *rapid.T) {
+		dev := rapid.Bool().Draw(t, "devmode")
+		setDevMode(t, dev)
 		k := rapid.IntRange(1, 10).Draw(t, "requests")
 		var batch []reqSpec
 		np := 0
@@ -320,7 +361,7 @@ func TestPropAPIHandlerPanics(t *testing.T) {
 			np = 1
 		}
 		runBatch(t, batch)
-		stats.Case(fmt.Sprintf("%+v", batch), true, fmt.Sprintf("api_batch_%d", k), fmt.Sprintf("api_panics_%d", min(np, 4)))
+		stats.Case(fmt.Sprintf("dev=%v %+v", dev, batch), true, fmt.Sprintf("api_batch_%d", k), fmt.Sprintf("api_panics_%d", min(np, 4)), fmt.Sprintf("api_devmode_%v", dev))
 		if stats.WantSample("api_generated") {
 			stats.Sample("api_generated", batch)
 		}
